@@ -68,6 +68,8 @@ pub(crate) fn local_as_value(
         FrozenHeapRef,
         [FrozenValueTyped<'static, LocalAsValue>; 100],
     )> = LazyLock::new(|| {
+        #[cfg(feature = "verif_hooks")]
+        let _no_preempt = crate::verif_hooks::NoPreempt::enter();
         let heap = FrozenHeap::new();
         let locals = array::from_fn(|i| {
             heap.alloc_simple_typed_static(LocalAsValue {
